@@ -404,3 +404,117 @@ Print Assumptions C14_numbersdirect_cleanup_foreign_dir.
    member and is cleaned up: NumDCleanupForeign.member_file_is_cleaned_d *)
 Check cleanup_foreign_instance_dir_d.
 Check member_file_is_cleaned_d.
+
+(* END TO END non-interference, the TIME-STAMP namings WITH a cleanup strategy (Flw/TsdCleanupForeign.v, Flw/TsCleanupForeign.v):
+   the cleanup lists with the time-stamp filter; it lists, removes and compresses family files only.  With arbitrary foreign
+   files in the directory (names that tsd_member / ts_member rejects; for TimestampsDirect the rCURRENT name is foreign) the
+   observations are those of the run in the empty directory (snapshots modulo the foreign entries), every foreign file is
+   unchanged - neither removed nor compressed -, and all other names and contents are exactly those of the clean run.
+   Hypotheses: those of C07 for these namings (suffix not gz / not ending with .gz, a clock that does not go backwards, the
+   years 1970..9999) plus NoDup and the member test. *)
+Require Import FL.Time.Civil FL.Flw.TsNames FL.Flw.TsInv FL.Flw.TsRun FL.Flw.TsdCleanupRun FL.Flw.TsCleanupRun
+  FL.Flw.TsdCleanupForeign FL.Flw.TsCleanupForeign.
+Theorem C14_timestampsdirect_cleanup_foreign_ignored c crit k t0 off foreign ops :
+  tsdkcfg c crit k -> tag_ok c -> sfx_ok (c_spec c) -> Forall basic_op ops -> Forall tick_ok ops ->
+  (0 <= t0 + ts_e c off)%Z -> (t0 + elapsed ops + ts_e c off < sec_max)%Z -> (N.of_nat (length ops) <= usize_max)%N ->
+  NoDup (List.map fst foreign) ->
+  (forall n, In n (List.map fst foreign) -> tsd_member c n = false) ->
+  let ops' := OStart c :: ops ++ [OStop] in
+  let rf := run (sys0f t0 off foreign) ops' in
+  let r0 := run (sys0 t0 off) ops' in
+  List.map (strip_obs (List.map fst foreign)) (snd rf) = snd r0
+  /\ (Forall (fun o => o <> OSnap) ops -> snd rf = snd r0)
+  /\ (forall n d, In (n, d) foreign -> file_of (wfs (s_w (fst rf))) n = Some (plain_file t0 d))
+  /\ (forall n, ~ In n (List.map fst foreign) -> file_of (wfs (s_w (fst rf))) n = file_of (wfs (s_w (fst r0))) n)
+  /\ (forall n, In n (List.map fst foreign) -> file_of (wfs (s_w (fst r0))) n = None)
+  /\ fst rf = embedx (names (fs0f t0 foreign)) (inodes (fs0f t0 foreign)) (fst r0).
+Proof. exact (timestampsdirect_cleanup_foreign_ignored c crit k t0 off foreign ops). Qed.
+
+(* ... so C07_timestampsdirect_cleanup carries over: what the directory with the foreign files holds after the run *)
+Theorem C14_timestampsdirect_cleanup_foreign_dir c crit k n m t0 off foreign ops closed cur :
+  tsdkcfg c crit k -> klimd k = Some (n, m) -> tag_ok c -> sfx_ok (c_spec c) ->
+  Forall basic_op ops -> Forall tick_ok ops ->
+  (0 <= t0 + ts_e c off)%Z -> (t0 + elapsed ops + ts_e c off < sec_max)%Z -> (N.of_nat (length ops) <= usize_max)%N ->
+  a_run None ops (snd (run (fst (step (sys0 t0 off) (OStart c))) ops)) = Some (closed, cur) ->
+  NoDup (List.map fst foreign) ->
+  (forall x, In x (List.map fst foreign) -> tsd_member c x = false) ->
+  let ff := wfs (s_w (fst (run (sys0f t0 off foreign) (OStart c :: ops ++ [OStop])))) in
+  let L := length closed in let lo := S L - (n + m) in let mid := S L - n in
+  concat closed ++ cur = written ops
+  /\ exists keys : list key,
+       let K i := kname c (ts_e c off) (nth i keys kd) in
+       let G i := gz_name (K i) in
+       length keys = S L /\ keys_ok keys /\ (forall key, In key keys -> (t0 <= fst key <= t0 + elapsed ops)%Z)
+       /\ (forall x, file_of ff x <> None <->
+             In x (List.map fst foreign) \/ (exists i, mid <= i <= L /\ x = K i) \/ (exists i, lo <= i < mid /\ x = G i))
+       /\ (forall x d, In (x, d) foreign -> file_of ff x = Some (plain_file t0 d))
+       /\ (forall i, mid <= i < L ->
+             exists fl, file_of ff (K i) = Some fl /\ fdata fl = nth i closed [] /\ fgz fl = 0%N /\ fdir fl = false)
+       /\ (forall i, lo <= i < mid ->
+             exists fl, file_of ff (G i) = Some fl /\ fdata fl = nth i closed [] /\ fgz fl = 1%N /\ fdir fl = false)
+       /\ (exists fl, file_of ff (K L) = Some fl /\ fdata fl = cur /\ fgz fl = 0%N /\ fdir fl = false)
+       /\ (forall i, i < lo -> file_of ff (K i) = None /\ file_of ff (G i) = None)
+       /\ (forall i, lo <= i < mid -> file_of ff (K i) = None).
+Proof. exact (timestampsdirect_cleanup_foreign_dir c crit k n m t0 off foreign ops closed cur). Qed.
+
+Theorem C14_timestamps_cleanup_foreign_ignored c crit k t0 off foreign ops :
+  tskcfg c crit k -> tag_ok c -> sfx_ok (c_spec c) -> Forall basic_op ops -> Forall tick_ok ops ->
+  (0 <= t0 + ts_e c off)%Z -> (t0 + elapsed ops + ts_e c off < sec_max)%Z -> (N.of_nat (length ops) <= usize_max)%N ->
+  NoDup (List.map fst foreign) ->
+  (forall n, In n (List.map fst foreign) -> ts_member c n = false) ->
+  let ops' := OStart c :: ops ++ [OStop] in
+  let rf := run (sys0f t0 off foreign) ops' in
+  let r0 := run (sys0 t0 off) ops' in
+  List.map (strip_obs (List.map fst foreign)) (snd rf) = snd r0
+  /\ (Forall (fun o => o <> OSnap) ops -> snd rf = snd r0)
+  /\ (forall n d, In (n, d) foreign -> file_of (wfs (s_w (fst rf))) n = Some (plain_file t0 d))
+  /\ (forall n, ~ In n (List.map fst foreign) -> file_of (wfs (s_w (fst rf))) n = file_of (wfs (s_w (fst r0))) n)
+  /\ (forall n, In n (List.map fst foreign) -> file_of (wfs (s_w (fst r0))) n = None)
+  /\ fst rf = embedx (names (fs0f t0 foreign)) (inodes (fs0f t0 foreign)) (fst r0).
+Proof. exact (timestamps_cleanup_foreign_ignored c crit k t0 off foreign ops). Qed.
+
+(* ... so C07_timestamps_cleanup carries over *)
+Theorem C14_timestamps_cleanup_foreign_dir c crit k n m t0 off foreign ops closed cur :
+  tskcfg c crit k -> klim k = Some (n, m) -> tag_ok c -> sfx_ok (c_spec c) ->
+  Forall basic_op ops -> Forall tick_ok ops ->
+  (0 <= t0 + ts_e c off)%Z -> (t0 + elapsed ops + ts_e c off < sec_max)%Z -> (N.of_nat (length ops) <= usize_max)%N ->
+  a_run None ops (snd (run (fst (step (sys0 t0 off) (OStart c))) ops)) = Some (closed, cur) ->
+  NoDup (List.map fst foreign) ->
+  (forall x, In x (List.map fst foreign) -> ts_member c x = false) ->
+  let ff := wfs (s_w (fst (run (sys0f t0 off foreign) (OStart c :: ops ++ [OStop])))) in
+  let L := length closed in let lo := L - (n + m) in let mid := L - n in
+  concat closed ++ cur = written ops
+  /\ exists keys : list key,
+       let K i := kname c (ts_e c off) (nth i keys kd) in
+       let G i := gz_name (K i) in
+       length keys = L /\ keys_ok keys /\ (forall key, In key keys -> (t0 <= fst key <= t0 + elapsed ops)%Z)
+       /\ (forall x, file_of ff x <> None <->
+             In x (List.map fst foreign) \/ x = cname c \/ (exists i, mid <= i < L /\ x = K i) \/ (exists i, lo <= i < mid /\ x = G i))
+       /\ (forall x d, In (x, d) foreign -> file_of ff x = Some (plain_file t0 d))
+       /\ (forall i, mid <= i < L ->
+             exists fl, file_of ff (K i) = Some fl /\ fdata fl = nth i closed [] /\ fgz fl = 0%N /\ fdir fl = false)
+       /\ (forall i, lo <= i < mid ->
+             exists fl, file_of ff (G i) = Some fl /\ fdata fl = nth i closed [] /\ fgz fl = 1%N /\ fdir fl = false)
+       /\ (exists fl, file_of ff (cname c) = Some fl /\ fdata fl = cur /\ fgz fl = 0%N /\ fdir fl = false)
+       /\ (forall i, i < lo -> file_of ff (K i) = None /\ file_of ff (G i) = None)
+       /\ (forall i, lo <= i < mid -> file_of ff (K i) = None).
+Proof. exact (timestamps_cleanup_foreign_dir c crit k n m t0 off foreign ops closed cur). Qed.
+
+Check C14_timestampsdirect_cleanup_foreign_ignored.
+Print Assumptions C14_timestampsdirect_cleanup_foreign_ignored.
+Check C14_timestampsdirect_cleanup_foreign_dir.
+Print Assumptions C14_timestampsdirect_cleanup_foreign_dir.
+Check C14_timestamps_cleanup_foreign_ignored.
+Print Assumptions C14_timestamps_cleanup_foreign_ignored.
+Check C14_timestamps_cleanup_foreign_dir.
+Print Assumptions C14_timestamps_cleanup_foreign_dir.
+(* non-vacuity: TsdCleanupForeign.cleanup_foreign_hypotheses_td / cleanup_foreign_instance_td / cleanup_foreign_instance_dir_td /
+   cleanup_foreign_dir_instance_td (twenty foreign files, KLogGz 2 1, three rotations, append), TsCleanupForeign.*_t (twenty-one
+   foreign files, KLogGz 1 1); the boundary - a stranger's file whose name follows the pattern is a member, is continued
+   (append) and is cleaned up: TsdCleanupForeign.member_file_is_cleaned_td, TsCleanupForeign.member_file_is_cleaned_t *)
+Check cleanup_foreign_instance_dir_td.
+Check cleanup_foreign_dir_instance_td.
+Check member_file_is_cleaned_td.
+Check cleanup_foreign_instance_dir_t.
+Check cleanup_foreign_dir_instance_t.
+Check member_file_is_cleaned_t.
